@@ -190,3 +190,30 @@ def renumbered(inp, seed=0, keep_samples=True):
     tables.build_index()
     tables.compute_mutation_parents()
     return Inp(inp.name + "_renum", tables.tree_sequence(), inp.mu, inp.Ne, inp.tags | {"renumbered"})
+
+
+def with_root_mutations(inp, k=2, seed=0):
+    """The same input plus k sites that each carry one mutation above the root of the local tree
+    (a fixed derived allele: such a mutation lies on no edge)."""
+    rng = np.random.default_rng(seed + 606)
+    ts = inp.ts
+    tables = ts.dump_tables()
+    taken = set(ts.sites_position.tolist())
+    added = 0
+    tries = 0
+    while added < k and tries < 200:
+        tries += 1
+        x = float(int(rng.integers(0, int(ts.sequence_length))))
+        if x in taken:
+            continue
+        tree = ts.at(x)
+        if tree.num_roots != 1:
+            continue
+        s = tables.sites.add_row(position=x, ancestral_state="A")
+        tables.mutations.add_row(site=s, node=tree.root, derived_state="T")
+        taken.add(x)
+        added += 1
+    tables.sort()
+    tables.build_index()
+    tables.compute_mutation_parents()
+    return Inp(inp.name + "_rootmut", tables.tree_sequence(), inp.mu, inp.Ne, inp.tags | {"root_mutations"})
